@@ -27,7 +27,7 @@ COMPONENTS = {
              'artap.surrogate_scikit.SurrogateModelScikit.train', 'artap.job.Job (batch / run family)'],
     'stub': ['regressor (StubRegressor)', 'user objective and predict hook (harness world)', 'joblib', 'time.time', 'uuid1'],
 }
-PROBES_EXPECTED = ['hook_accept', 'hook_decline', 'trained_by_schedule', 'initially_trained', 'train_step_minus_1', 'no_hook',
+PROBES_EXPECTED = ['post_processing_evaluator', 'preloaded_training_data', 'hook_accept', 'hook_decline', 'trained_by_schedule', 'initially_trained', 'train_step_minus_1', 'no_hook',
                    'passthrough', 'scikit_variant', 'batch_family', 'run_family', 'parallel_family', 'predictions', 'true_evaluations', 'hook_value_numpy',
                    'hook_value_zero']
 
@@ -298,6 +298,28 @@ def _parallel(D):
     return core.result(ctx, sim)
 
 
+def _final(self, when):
+    """the training set and the counters, looked at again after the caller has finished with the designs"""
+    ctx, m, sur = self.ctx, self.model, self.sur
+    if m.kind == 'eval' or ctx.violations:
+        return
+    ctx.check()
+    try:
+        same = [list(x) for x in sur.x_data] == m.x and [[float(c) for c in y] for y in sur.y_data] == m.y
+    except (TypeError, ValueError):
+        same = False
+    if not same:
+        ctx.violation('training_set', type(sur).__mro__[1].__name__ + '.evaluate',
+                      '%s: the training set is no longer the evaluated (vector, objective value) pairs in order '
+                      '(%d/%d entries, model %d; first values %r)' % (when, len(sur.x_data), len(sur.y_data), len(m.x), list(sur.y_data[:2])))
+    elif sur.eval_counter != m.evals or sur.predict_counter != m.preds:
+        ctx.violation('counters', type(sur).__mro__[1].__name__ + '.evaluate', '%s: eval_counter %d / predict_counter %d, model %d / %d'
+                      % (when, sur.eval_counter, sur.predict_counter, m.evals, m.preds))
+
+
+Harness.final = _final
+
+
 def run_one(D, opts=None):
     if D.weighted('cfg', 'pfamily', (5, 1)) == 1:
         return _parallel(D)
@@ -306,10 +328,23 @@ def run_one(D, opts=None):
     train_step = TRAIN_STEPS[D.dec('cfg', 'train_step', len(TRAIN_STEPS))]
     trained = D.dec('cfg', 'trained0', 3) == 1
     hook = D.dec('cfg', 'nohook', 4) != 1
+    # the batch family also runs with the evaluators that post-process a design after the surrogate answered (worst case:
+    # appends an objective to the design's costs; gradient: evaluates neighbour designs) - the bookkeeping is the same
+    ek = (None, 'worst', 'gradient')[D.weighted('cfg', 'c19evaluator', (3, 1, 1))] if fam == 1 else None
     sim = W.begin_run(D, policy='fifo', stall_p=0.0, timed=False)
     ctx = core.Ctx(PID, D, sim)
-    w = W.World(D, sim, fail='none', precision=0, with_predict=hook, name='c19')
+    w = W.World(D, sim, fail='none', precision=0, with_predict=hook, with_tol=ek is not None, name='c19')
     h = Harness(ctx, w, D, kind, train_step, trained, hook)
+    npre = D.weighted('cfg', 'preload', (3, 1, 1, 1, 1)) if kind != 'eval' else 0
+    for k in range(npre):
+        # results of an earlier study handed to the surrogate through its public add_data(): they are training data, not
+        # evaluations - the counters and the retraining schedule count true evaluations only
+        x = W.gen_vector(w, D, 'work', ('pre', k))
+        y = w.f(x)
+        h.sur.add_data(list(x), list(y))
+        h.model.x.append(list(x))
+        h.model.y.append([float(c) for c in y])
+        ctx.probe('preloaded_training_data')
     if kind == 'eval':
         ctx.probe('passthrough')
     if kind == 'scikit':
@@ -336,10 +371,15 @@ def run_one(D, opts=None):
                 h.sur.evaluate = h.request
                 if fam == 1:
                     ctx.probe('batch_family')
-                    alg = W.dummy_algorithm(w, workers=1)
+                    alg = W.dummy_algorithm(w, workers=1, evaluator=ek)
+                    if ek:
+                        ctx.probe('post_processing_evaluator')
                     for b in range(1 + D.dec('work', 'nb', 4)):
                         batch = [Individual(W.gen_vector(w, D, 'work', ('v', b, i))) for i in range(1 + D.dec('work', ('nd', b), 8))]
                         alg.evaluate(batch)
+                        if ctx.violations:
+                            break
+                        h.final('after batch %d' % b)
                         if ctx.violations:
                             break
                 else:
